@@ -43,6 +43,7 @@ def run(pid, spec_name, tier, scratch):
         return [{"id": "mir-dump", "engine": "smt", "status": "inconclusive", "detail": note}], {}
     fns = mir.load(path)
     fn = getattr(obligations, spec_name)
+    mir.CROSS_CHECK_ALL = (tier == "thorough")
     obls = []
     try:
         obls = fn(fns, tier, {"src": src, "scratch": scratch, "pid": pid})
@@ -50,5 +51,5 @@ def run(pid, spec_name, tier, scratch):
         obls.append({"id": "mir-encode", "engine": "smt", "status": "inconclusive",
                      "detail": "cannot encode (MIR shape changed?): %s" % e})
     meta = {"smt_wall_s": round(time.time() - t0, 1), "mir_functions": len(fns), "mir_note": note,
-            "solver": "z3 %s (python API), cvc5 cross-check on kernel queries" % z3.get_version_string()}
+            "solver": "z3 %s (python API); cvc5 re-decides %s" % (z3.get_version_string(), "every entailment query, up to %d per interpreted function (thorough tier)" % mir.CROSS_CHECK_CAP if tier == "thorough" else "the interference kernels' queries")}
     return obls, meta
